@@ -188,10 +188,9 @@ def permEntry (perm : List Nat) (p : Int × List Mod) : Int × List Mod :=
 def permDict (perm : List Nat) (d : Dict) : Except Err Dict :=
   if d.all (fun p => (posOf? perm p.1).isSome) then .ok (d.map (permEntry perm)) else .error .keyError
 
-/-- `ProFormaAnnotation.shuffle(seed)`, `perm` = the outcome of `random.shuffle` on the positions -/
-def shuffle (a : Annotation) (perm : List Nat) : Except Err Annotation :=
-  if a.seq.isEmpty then .error .valueError else   -- `zip(*[])` cannot be unpacked into two names
-  let newSeq := perm.filterMap (a.seq[·]?)
+/-- common tail of shuffle / sort_residues: `if self.internal_mods:` (truthy) re-key every entry through the position
+table, else `None`; then replace sequence and residue mods (both values of `inplace` assign the same two fields) -/
+def permuteWith (a : Annotation) (perm : List Nat) (newSeq : List Char) : Except Err Annotation :=
   match a.internal with
   | none => .ok { a with seq := newSeq, internal := none }
   | some [] => .ok { a with seq := newSeq, internal := none }
@@ -199,6 +198,11 @@ def shuffle (a : Annotation) (perm : List Nat) : Except Err Annotation :=
     match permDict perm d with
     | .error e => .error e
     | .ok d' => .ok { a with seq := newSeq, internal := some d' }
+
+/-- `ProFormaAnnotation.shuffle(seed)`, `perm` = the outcome of `random.shuffle` on the positions -/
+def shuffle (a : Annotation) (perm : List Nat) : Except Err Annotation :=
+  if a.seq.isEmpty then .error .valueError else   -- `zip(*[])` cannot be unpacked into two names
+  permuteWith a perm (perm.filterMap (a.seq[·]?))
 
 /-- stable insertion of `x` by key `c.toNat` (goes before the first element that is not smaller) -/
 def insertBy {α} (key : α → Nat) (x : α) : List α → List α
@@ -216,15 +220,7 @@ def sortOrder (seq : List Char) : List Nat :=
 
 /-- `ProFormaAnnotation.sort_residues()` -/
 def sortResidues (a : Annotation) : Except Err Annotation :=
-  let perm := sortOrder a.seq
-  let newSeq := sortBy (fun (c : Char) => c.toNat) a.seq
-  match a.internal with
-  | none => .ok { a with seq := newSeq, internal := none }
-  | some [] => .ok { a with seq := newSeq, internal := none }
-  | some d =>
-    match permDict perm d with
-    | .error e => .error e
-    | .ok d' => .ok { a with seq := newSeq, internal := some d' }
+  permuteWith a (sortOrder a.seq) (sortBy (fun (c : Char) => c.toNat) a.seq)
 
 /-! ### split -/
 
